@@ -451,19 +451,29 @@ def withQuant (fm : FM) (q : Option NpuQuant) : FmB :=
 
 def toRange (region : Int) (r : WeightLayout.AddrRange) : AddrRange := ⟨region, r.address, r.length⟩
 
+/-- `assert scale_tensor.src_tensor is None`: reached for the first core that has a range -/
+def scaleSrcAssert (w : WTensD) (depth : Nat) (sc : Option STensD) (arch : ArchD) : Bool :=
+  ((List.range arch.ncores).any fun core => (WeightLayout.findRange w.ranges core depth).isSome) &&
+  (match sc with | some s => s.hasSrc | none => false)
+
+def scaleRegionOf (sc : Option STensD) (arch : ArchD) : Except Err Int :=
+  match sc with
+  | some s => getRegion s.memType arch
+  | none => .ok 0
+
 def createWeights (w : WTensD) (depth : Nat) (sc : Option STensD) (arch : ArchD) :
-    Except Err (List AddrRange × List AddrRange) := do
-  let shared ← getRegion w.memType arch
-  let scaleRegion ← match sc with
-    | some s => getRegion s.memType arch
-    | none => pure 0
-  -- `assert scale_tensor.src_tensor is None` is reached for the first core that has a range
-  let anyRange := (List.range arch.ncores).any fun core => (WeightLayout.findRange w.ranges core depth).isSome
-  if anyRange && (match sc with | some s => s.hasSrc | none => false) then throw .assert
-  match WeightLayout.createWeights arch.ncores w.ranges w.address (if w.buffered then some w.address else none)
-          (sc.map fun s => (s.address, s.ranges)) depth with
-  | none => throw .key
-  | some (ws, bs) => pure (ws.map (toRange shared), bs.map (toRange (if sc.isSome then scaleRegion else shared)))
+    Except Err (List AddrRange × List AddrRange) :=
+  match getRegion w.memType arch with
+  | .error e => .error e
+  | .ok shared =>
+    match scaleRegionOf sc arch with
+    | .error e => .error e
+    | .ok scaleRegion =>
+      if scaleSrcAssert w depth sc arch then .error .assert else
+      match WeightLayout.createWeights arch.ncores w.ranges w.address (if w.buffered then some w.address else none)
+              (sc.map fun s => (s.address, s.ranges)) depth with
+      | none => .error .key
+      | some (ws, bs) => .ok (ws.map (toRange shared), bs.map (toRange (if sc.isSome then scaleRegion else shared)))
 
 /-! ## `create_npu_activation` -/
 
@@ -827,20 +837,39 @@ def createElementwise (fo : FloatOps) (c0 : StripeD) (arch : ArchD) : Except Err
 
 def coordInts (l : List Nat) : List Int := l.map Int.ofNat
 
-def createDmaOp (d : DmaD) (arch : ArchD) : Except Err (AddrRange × AddrRange) := do
-  let srcRegion ← getRegion d.src.memType arch
-  let dstRegion ← if d.dst.purpose == .lut then pure regionMem2Mem else getRegion d.dst.memType arch
-  if d.src.purpose == .weights then
-    let depth ← match d.box.start.getLast? with | some x => pure x | none => throw Err.index
-    match WeightLayout.createDmaOp arch.ncores d.src.ranges d.src.address d.dst.address depth with
-    | none => throw .unbound
-    | some (s, t) => pure (⟨srcRegion, s.address, s.length⟩, ⟨dstRegion, t.address, t.length⟩)
-  else
-    let a ← (TensorAddr.addressForCoordinate d.src.t (coordInts d.box.start) none none false).mapError ofTA
-    let b ← (TensorAddr.addressForCoordinate d.dst.t (coordInts d.box.start) none none false).mapError ofTA
-    let e ← (TensorAddr.addressForCoordinate d.src.t (coordInts d.box.stop) none none true).mapError ofTA
-    let sz : Int := (((e : Int) - (a : Int)) + 15) / 16 * 16
-    pure (⟨srcRegion, a, sz⟩, ⟨dstRegion, b, sz⟩)
+def dmaDstRegion (d : DmaD) (arch : ArchD) : Except Err Int :=
+  if d.dst.purpose == .lut then .ok regionMem2Mem else getRegion d.dst.memType arch
+
+/-- the non-weight branch: `address_for_coordinate` of the box start in both tensors, size up to the box end rounded to 16 -/
+def dmaPlain (d : DmaD) : Except Err (Nat × Nat × Int) :=
+  match TensorAddr.addressForCoordinate d.src.t (coordInts d.box.start) none none false with
+  | .error e => .error (ofTA e)
+  | .ok a =>
+    match TensorAddr.addressForCoordinate d.dst.t (coordInts d.box.start) none none false with
+    | .error e => .error (ofTA e)
+    | .ok b =>
+      match TensorAddr.addressForCoordinate d.src.t (coordInts d.box.stop) none none true with
+      | .error e => .error (ofTA e)
+      | .ok e => .ok (a, b, (((e : Int) - (a : Int)) + 15) / 16 * 16)
+
+def createDmaOp (d : DmaD) (arch : ArchD) : Except Err (AddrRange × AddrRange) :=
+  match getRegion d.src.memType arch with
+  | .error e => .error e
+  | .ok srcRegion =>
+    match dmaDstRegion d arch with
+    | .error e => .error e
+    | .ok dstRegion =>
+      if d.src.purpose == .weights then
+        match d.box.start.getLast? with
+        | none => .error .index
+        | some depth =>
+          match WeightLayout.createDmaOp arch.ncores d.src.ranges d.src.address d.dst.address depth with
+          | none => .error .unbound
+          | some (s, t) => .ok (⟨srcRegion, s.address, s.length⟩, ⟨dstRegion, t.address, t.length⟩)
+      else
+        match dmaPlain d with
+        | .error e => .error e
+        | .ok (a, b, sz) => .ok (⟨srcRegion, a, sz⟩, ⟨dstRegion, b, sz⟩)
 
 /-! ## `convert_command_to_npu_op` -/
 
